@@ -6,6 +6,8 @@ import (
 	"testing"
 
 	"github.com/cosmos72/gomacro/cmd"
+	"pgregory.net/rapid"
+	"verif/harness/gobatch"
 )
 
 func TestProbe(t *testing.T) {
@@ -16,4 +18,20 @@ func TestProbe(t *testing.T) {
 	c := cmd.New()
 	err := c.Main([]string{"-m", "-w", "-f", f})
 	fmt.Println("err:", err)
+}
+
+func TestDumpInvalid(t *testing.T) {
+	if os.Getenv("C39_DUMP") == "" {
+		t.Skip()
+	}
+	n := 0
+	rec.Check(t, 30, func(rt *rapid.T) {
+		n++
+		c := Generate(rt, fmt.Sprintf("P%d_", n))
+		if err := gobatch.Vet(c.Want); err != nil {
+			fmt.Println("VET ERROR:", err)
+			fmt.Println(c.Want.Source("p"))
+			rt.Fatalf("stop")
+		}
+	})
 }
